@@ -230,7 +230,7 @@ def gen_conv(rng, search, spec=None):
         st = {"chain": [[hexvec(v) for v in step] for step in chain], "L": [[L(v).hex() for v in step] for step in chain],
               "tau": tau.hex(), "check_size": rng.randint(1, 3)}
     elif search in ("dynesty_static", "dynesty_dynamic", "nautilus", "ultranest"):
-        n = rng.choice([0, 1, 2]) if rng.random() < 0.1 else rng.randint(3, 40)
+        n = rng.choice([1, 1, 2]) if rng.random() < 0.1 else rng.randint(3, 40)
         rows = [rand_vec(rng, spec) for _ in range(n)]
         if n > 3 and rng.random() < 0.3:
             rows[rng.randrange(n)] = list(rows[0])     # a repeated point (ties)
@@ -598,7 +598,10 @@ def run(ctx):
         ctx.obligation("translator:mcmc-logprob-variant", "translator", True, json.dumps(variants))
     ctx.notes["mcmc_logprob_variant"] = variants
     # 2. proofs
+    import time
+    t0 = time.time()
     ctx.build()
+    ctx.notes["t_build_s"] = round(time.time() - t0, 1)
     # 3. cases
     conv, e2e = gen_cases(ctx)
     if ctx.replay:
@@ -612,7 +615,9 @@ def run(ctx):
     for i in range(0, len(conv), chunk):
         payloads.append({"cases": conv[i:i + chunk]})
     payloads += [{"cases": [c]} for c in e2e]
+    t0 = time.time()
     outs = common.run_impl_parallel("c05_impl", payloads, timeout=1200)
+    ctx.notes["t_impl_s"] = round(time.time() - t0, 1)
     results = []
     for p, o in zip(payloads, outs):
         if "__error__" in o:
@@ -674,15 +679,25 @@ def run(ctx):
     # 4. correspondence inside Coq
     if os.path.exists(os.path.join(common.COQ, "C05", "Model.vo")):
         hdr = ctx.header(["Common.PyFloat", "Common.Lists", "Model"])
+        t0 = time.time()
         bad, log = ctx.eval_cases(hdr, "case", "check_case", coq_cases, shard=12)
+        ctx.notes["t_coq_cases_s"] = round(time.time() - t0, 1)
         for b in (bad or [])[:5]:
             i = coq_idx[b]
-            c, r = cases[i], results[i]["ok"]
+            c, r = cases[i], results[i].get("ok")
+            shown = ctx.show(hdr, "match (%s) with Case pp cols pt et st e => (column_ids pp, model_outcome pp pt et st) end"
+                             % coq_cases[b], tag="model%d" % b)
+            diff = ctx.show(hdr, "match (%s) with Case pp cols pt et st e => match model_outcome pp pt et st, e with "
+                            "OOk a, OOk b => Some (list_eqb sample_eqb (o_samples a) (o_samples b), flist_eqb (o_posts a) (o_posts b), "
+                            "opt_eqb Nat.eqb (o_best a) (o_best b), opt_eqb flist_eqb (o_vec a) (o_vec b), "
+                            "opt_eqb (list_eqb flist_eqb) (o_rows a) (o_rows b), opt_eqb fbits_eqb (o_ll a) (o_ll b), "
+                            "map2 sample_eqb (o_samples a) (o_samples b)) | _, _ => None end end" % coq_cases[b], tag="diff%d" % b)
             ctx.failure("correspondence", "model and implementation disagree on a %s %s case" % (c["kind"], c["search"]),
                         {k: v for k, v in c.items() if k != "idx"}, classes=classes_of(c, "correspondence"),
-                        impl={"obs": _small(r["obs"]), "state": _small(r["state"])},
+                        impl=None if r is None else {"obs": _small(r["obs"], 20000), "state": _small(r["state"], 20000)},
+                        model={"components_equal(samples,posts,best,vec,rows,ll,per-sample)": diff, "outcome": shown[:20000]},
                         broken={"kind": "correspondence", "name": "C05.check_case"},
-                        found_input=bool(oracle(c, r)))
+                        found_input=bool(r is not None and oracle(c, r)))
     else:
         ctx.obligation("correspondence:cases", "correspondence", False, "Model.vo not built")
 
